@@ -76,8 +76,12 @@ package cache
 //@   ensures [placeholder-is-not-found] e != nil && e == errPlaceholder ==> calls(query) == 0 && result1 == n.errNotFound && result0 == nil
 //@   ensures [cache-failure-passed-through] e != nil && e != errPlaceholder && e != n.errNotFound ==> calls(query) == 0 && result1 == e && result0 == nil
 //@   ensures [miss-queries-db-once] e != nil && e != errPlaceholder && e == n.errNotFound ==> calls(query, val) == 1
-//@   ensures [db-not-found-remembered] calls(query) == 1 && ret(query) == n.errNotFound ==> calls(n.setCacheWithNotFound) == 1 && arg(setCacheWithNotFound, 2) == key && result1 == n.errNotFound && calls(cacheVal) == 0
-//@   ensures [db-error-not-cached] calls(query) == 1 && ret(query) != nil && ret(query) != n.errNotFound ==> result1 == ret(query) && calls(cacheVal) == 0 && calls(setCacheWithNotFound) == 0
+// "not found" is decided the way the package's own IsNotFound decides it - errors.Is, so a not-found the query
+// callback wrapped (fmt.Errorf("find user 42: %w", ErrNotFound)) is remembered too, not counted as a DB failure
+//@   replay-for wrapped-not-found-is-not-found cache_wrapped_notfound
+//@   ensures [wrapped-not-found-is-not-found] calls(query) == 1 ==> calls(errors.Is) == 1 && arg(errors.Is, 0) == ret(query) && arg(errors.Is, 1) == n.errNotFound
+//@   ensures [db-not-found-remembered] calls(query) == 1 && ret(errors.Is) ==> calls(n.setCacheWithNotFound) == 1 && arg(setCacheWithNotFound, 2) == key && result1 == n.errNotFound && calls(cacheVal) == 0 && calls(IncrDbFails) == 0
+//@   ensures [db-error-not-cached] calls(query) == 1 && ret(query) != nil && !ret(errors.Is) ==> result1 == ret(query) && calls(cacheVal) == 0 && calls(setCacheWithNotFound) == 0
 //@   ensures [db-row-cached] calls(query) == 1 && ret(query) == nil ==> calls(cacheVal, val) == 1 && before(query, cacheVal)
 
 // doGetCache: a Redis failure is returned as it is (not turned into a miss); an empty value is a miss; the
